@@ -726,3 +726,100 @@ def depth_failures(out_text, lexed, ann, unit):
         if ws != unit * first[ln]:
             bad.append((ln, l, first[ln], "leading whitespace %r is not %d x the unit %r" % (ws, first[ln], unit)))
     return bad
+
+
+# ------------------------------------------------------------------------------------------------
+# shrinking a failing program (only used when a violation was found)
+
+def _stmt_variants(s):
+    k = s[0]
+    if k == "block":
+        for i in range(len(s[1])):
+            yield ("block", s[1][:i] + s[1][i + 1:])
+            for v in _stmt_variants(s[1][i]):
+                yield ("block", s[1][:i] + [v] + s[1][i + 1:])
+        if len(s[1]) == 1:
+            yield s[1][0]
+    elif k == "if":
+        yield s[2]
+        if s[3] is not None:
+            yield s[3]
+            if not splgen._open_if(s[2]):
+                yield ("if", s[1], s[2], None)
+            for v in _stmt_variants(s[3]):
+                yield ("if", s[1], s[2], v)
+        for v in _stmt_variants(s[2]):
+            if s[3] is None or not splgen._open_if(v):
+                yield ("if", s[1], v, s[3])
+        if s[1] != ("lit", "1"):
+            yield ("if", ("lit", "1"), s[2], s[3])
+    elif k == "while":
+        yield s[2]
+        for v in _stmt_variants(s[2]):
+            yield ("while", s[1], v)
+        if s[1] != ("lit", "1"):
+            yield ("while", ("lit", "1"), s[2])
+    elif k == "assign":
+        if s[2] != ("lit", "1"):
+            yield ("assign", s[1], ("lit", "1"))
+        if s[1][0] != "name":
+            yield ("assign", ("name", "x"), s[2])
+        yield ("empty",)
+    elif k == "call":
+        if s[2]:
+            yield ("call", s[1], [])
+        yield ("empty",)
+
+
+def program_variants(prog):
+    """strictly smaller (or simpler) syntactically valid variants of an abstract program"""
+    for i in range(len(prog)):
+        yield prog[:i] + prog[i + 1:]
+    for i, d in enumerate(prog):
+        if d[0] == "type":
+            if d[2] != ("named", "int"):
+                yield prog[:i] + [("type", d[1], ("named", "int"))] + prog[i + 1:]
+            continue
+        _, name, params, vars_, stmts = d
+        for j in range(len(params)):
+            yield prog[:i] + [("proc", name, params[:j] + params[j + 1:], vars_, stmts)] + prog[i + 1:]
+        for j in range(len(vars_)):
+            yield prog[:i] + [("proc", name, params, vars_[:j] + vars_[j + 1:], stmts)] + prog[i + 1:]
+        for j in range(len(stmts)):
+            yield prog[:i] + [("proc", name, params, vars_, stmts[:j] + stmts[j + 1:])] + prog[i + 1:]
+            for v in _stmt_variants(stmts[j]):
+                yield prog[:i] + [("proc", name, params, vars_, stmts[:j] + [v] + stmts[j + 1:])] + prog[i + 1:]
+
+
+def _norm(x):
+    """JSON round trip turns tuples into lists; the generators compare with tuples"""
+    if isinstance(x, (list, tuple)):
+        return tuple(_norm(y) for y in x) if (x and isinstance(x[0], str)) or isinstance(x, tuple) else [_norm(y) for y in x]
+    return x
+
+
+def shrink_program(prog, still_fails, budget=250):
+    """greedy descent over program_variants while still_fails(variant) holds; returns the smallest failing program"""
+    prog = list(prog)
+    n = 0
+    progress = True
+    while progress and n < budget:
+        progress = False
+        for v in program_variants(prog):
+            n += 1
+            if n > budget:
+                break
+            try:
+                bad = still_fails(v)
+            except Exception:
+                bad = False
+            if bad:
+                prog = v
+                progress = True
+                break
+    return prog
+
+
+def plain_text(prog):
+    """a conventional, comment-free rendering: tokens separated by single spaces"""
+    return " ".join(splgen.flatten(prog)) + "\n"
